@@ -375,6 +375,23 @@ def u_dimension_files(W, sk):
             W.prove("read_dimension.items_in_file_order_with_declared_type", isinstance(dim, Dimension) and dim.name == name and dim.letter == letter and list(dim.items) == items and all(type(i) is dtype for i in dim.items), detail=f"got {getattr(dim, 'items', None)} want {items}")
         out = W.call(lambda: reader.read_dimensions([dd]))
         W.prove("read_dimensions.returns_set", out.kind == "return" and [x.letter for x in out.value.dim_list] == [letter], detail=repr(out))
+        # history: the file at the same path is rewritten with other items and read again (by the same reader and by
+        # a new one): the items are those the file holds now
+        items2 = (items[::-1] + [items[0] + 1000]) if dtype is int else (items[::-1] + ["new item"])
+        cells2 = ([name] if sk["header"] else []) + items2
+        rows2 = [cells2] if sk["orient"] == "row" else [[c] for c in cells2]
+        if sk["kind"] == "csv":
+            _write_table(path, rows2, "csv")
+            reader2 = CSVDimensionReader(dimension_files={name: path})
+        elif sk["sheet"] == "named":
+            _write_table(path, rows2, "xlsx", sheet="wanted", other_sheets=[("Other", decoy)])
+            reader2 = ExcelDimensionReader(dimension_files={name: path}, dimension_sheets={name: "wanted"})
+        else:
+            _write_table(path, rows2, "xlsx", other_sheets=[("Other", decoy)])
+            reader2 = ExcelDimensionReader(dimension_files={name: path})
+        for who, rd in (("same reader", reader), ("new reader", reader2)):
+            out = W.call(lambda: rd.read_dimension(dd))
+            W.prove(f"read_dimension.after_the_file_changed[{who}].items_of_the_current_file", out.kind == "return" and list(out.value.items) == items2, detail=f"got {getattr(out.value, 'items', None) if out.kind == 'return' else out!r} want {items2}")
         # a table with more than one row and column is refused
         out = W.call(lambda: Dimension.from_np(np.array([[1, 2], [3, 4]]), DimensionDefinition(name=name, letter=letter, dtype=int)))
         SL.check_raises(W, "from_np(two rows and two columns)", out, ValueError)
